@@ -13,10 +13,11 @@ def claim(pid, text, note, technique, ref):
 
 
 claim("C13",
-      "Coq proof: the path-helper laws are theorems about PathModel.v (executable Gallina model of "
-      "provider.py's join/split/normalize/is_subpath/replace_path/paths_match and CloudSync.translate) for all strings and "
-      "conventions; the model is tied to the working tree on every run by differential execution of the extracted model "
-      "against the real helpers (exhaustive small strings, random long paths) and by evaluating the laws on the real code.",
+      "Coq proof (38 theorems, no axioms): every law of the property is a theorem about PathModel.v (executable Gallina model of "
+      "provider.py's join/split/normalize/is_subpath/replace_path/paths_match and CloudSync.translate) for all strings and all "
+      "conventions, under explicit hypotheses on the per-character case fold. Two ties on every run: differential execution of the "
+      "extracted model against the real helpers (exhaustive small strings, random long paths, laws evaluated on the real code with the "
+      "theorems' guards) and a fail-closed ast translator regenerating nps/split/is_subpath/replace_path from the source, proved equal to the model.",
       "Trusted: Coq kernel, extraction (ExtrOcamlBasic) + OCaml driver, the Python correspondence harness, CPython str "
       "semantics; per-character case-fold hypotheses (checked on the generator alphabet).",
       "machine-checked proof (Coq) over a hand-written model + differential correspondence check", "DESIGN.md §6 C13")
@@ -67,6 +68,84 @@ claim("C05",
       "Trusted: Coq kernel; extraction + driver; harness observers. The engine's conflict path is not modelled; merged+keep, temporary "
       "errors from the resolver and path-style ids are outside the explored product.",
       "machine-checked proof (Coq) of an executable outcome specification + exhaustive product of real engine runs accepted by it", "DESIGN.md §6 C05")
+
+
+claim("C06",
+      "Coq proof (no axioms): CursorModel.v — an acceptor for the cursor-relevant actions of an event manager (event applied, cursor stored, "
+      "walk finished, restart, cursor lost, cursor reset) keeps, for every action sequence with any number of restarts, the invariant that the "
+      "stored cursor is never ahead of the applied events unless storage itself records that a full walk is due; hence after any restart no "
+      "event is both unreflected and skipped (C06_restart_never_skips). Outcome: restarts are invisible in the observation trace, so Monitor "
+      "acceptance with the spec check is 'continues as if it had never stopped' (C06_restart_transparent) and no provider write after quiet is "
+      "'no re-transfer'. Tie: clean histories with stops at random step boundaries, operations while stopped, SqliteStorage on a file, three "
+      "modes (intact / cursor removed / cursor rejected); the real cursor actions of both sides are judged by the extracted CursorModel, the "
+      "trace by the extracted Monitor, and the C11 index clauses and C08 storage==memory oracles run after every step.",
+      ENGINE_NOTE + " In the two fallback modes only creations/modifications are required to arrive (property text): operations made "
+      "between the stop and the end of the fallback walk are restricted to those.", ENGINE_TECH, "DESIGN.md §6 C06")
+
+PURE_TECH = "machine-checked proof (Coq) over a hand-written executable model + differential correspondence check against the real code"
+
+claim("C09",
+      "Coq proof (no axioms): executable Gallina models of SqliteStorage (table, rowid = 1 + max over all tags, WHERE id AND tag) and of the "
+      "MockStorage fixture refine a finite map (tag, id) -> bytes for every call sequence incl. close/reopen; fresh ids, read-last-write, "
+      "update-missing error, idempotent delete, exact read_all, tag isolation with coinciding ids, reopen identity are corollaries; any "
+      "interleaving of whole calls by n threads is a legal map history with no write lost (atomicity of a call assumed). Tie on every run: "
+      "generated call sequences on SQLite file (with reopen), :memory: and MockStorage vs the extracted model, the laws evaluated on the real "
+      "answers, a threaded stress and a two-thread read-race probe. MockStorage deviations (second instance re-issues id 0; read of a missing "
+      "id raises) are Coq refutations + open known findings.",
+      "Trusted: Coq kernel, extraction + driver, harness; SQLite's durability and the runtime's per-call atomicity are assumed and only tested (partial).",
+      PURE_TECH, "DESIGN.md §6 C09")
+claim("C18",
+      "Coq proof (no axioms) about an executable model of runnable.py / notification.py: exact backoff arithmetic over Q (formula, bounds, reset, "
+      "no-op, survival of every outcome incl. BaseException) and a two-thread small-step machine with one atomic step per racy private-attribute "
+      "access, whose stop/restart/cleanup theorems hold for every interleaving by invariant. The statements that were false of the original code "
+      "(lost cleanup, un-finalising stop(False), AttributeError from wake()) are kept as refutations of the legacy variant; the code was repaired "
+      "(aef1d0a) and the theorems hold for the repaired variant, which the check auto-detects. Tie: exact-Fraction differential runs of the "
+      "sequential loop, access-by-access schedule replay on real threads, NotificationManager runs with failing handlers.",
+      "Trusted: Coq kernel, extraction + driver, harness (attribute interception on a subclass, Event/Thread proxies). OS scheduling, real time, several concurrent callers are outside the model.",
+      PURE_TECH, "DESIGN.md §6 C18")
+claim("C17",
+      "Coq proof (no axioms): the scheduling laws are theorems about SchedModel.v (change(), mark_changed, punt, finished, priorities) for all tables, "
+      "all set iteration orders, all operation histories and clock readings, under stated hypotheses on float rounding that ideal arithmetic satisfies. "
+      "Two ties on every run: differential execution of the extracted model against a real SyncState under a virtual clock (exact rationals), and a "
+      "fail-closed ast translator that regenerates the eligibility test, the sort key and 'now' from the current source of SyncState.change and re-proves "
+      "them equal to the model. 'Last notification on either side' is refuted for the code (open known finding).",
+      "Trusted: Coq kernel, extraction + driver, translator, harness. IEEE doubles satisfying the rounding hypotheses is not proved; where SyncManager decides to punt/finish is not modelled.",
+      PURE_TECH + " + source-regenerated definitions (ast translator)", "DESIGN.md §6 C17")
+claim("C19",
+      "Coq proof (no axioms) about an executable model of HierarchicalCache's public API (tree + derived id index + ghost ids): the invariant (unique "
+      "names per folder, files are leaves, no id on two nodes) holds in every reachable state for every operation sequence; for regular operations the "
+      "path->id and id->path views are inverses, delete/replace forgets the subtree, rename moves the identical subtree, lookups equal the plain "
+      "dictionary (commuting diagrams). Full-strength coherence is refuted with witnesses for two open defect classes (ancestor id; insertion at '/'). "
+      "Tie: extracted model vs the real cache on corpus, exhaustive short sequences and seeded random sequences, all getters compared after every op.",
+      "Trusted: Coq kernel, extraction + driver, harness, CPython dict order/refcounting; path-string parsing is C13's; weak parent pointers/GC not modelled.",
+      PURE_TECH, "DESIGN.md §6 C19")
+claim("C08",
+      "Coq proof (no axioms): the msgpack codec of SyncEntry/SideState is characterised completely (which entries survive, what changes: list->tuple, "
+      "priority/force_sync/_last_gotten reset; all listed fields preserved for well-formed shapes; legacy rows load); the dirty-set/storage_commit "
+      "mechanism over a row store with SQLite's id re-use is proved exact after every commit and independent of the dirty-set iteration order for the "
+      "variant that clears storage_id on delete (the code since fix 39c80a7; the legacy variant is refuted by the P-9 witness); reload yields the same "
+      "lookups and pending set. Tie: differential runs against SyncEntry.serialize/load and real state-level histories with controlled dirty-set orders "
+      "on both back ends; a behavioural probe selects the model variant. Engine level: storage == memory is compared after every step of the C06/C07 runs.",
+      "Trusted: Coq kernel, extraction + driver, harness, msgpack/sqlite themselves. The live index maintenance is C11's.",
+      PURE_TECH, "DESIGN.md §6 C08")
+claim("C16",
+      "Coq proof (no axioms) about ProvModel.v, a faithful executable model of MockProvider/MockFS in its four flavours: for all call sequences oid "
+      "stability (id-style) / oid = path (path-style), append-only event log and cursor semantics, agreement of info/exists/hash/download/listdir, the "
+      "error class of each failing precondition, the hash law for an arbitrary hash, event completeness per mutation, the connect identity check. Tree "
+      "well-formedness is refuted at full strength (two witnesses = open findings F4, F5) and proved for clean sequences of <= 3 calls (bound in the "
+      "statement), beyond that monitored on every explored state. Tie: every return value, exception class, event and tree vs the real MockProvider "
+      "(4 flavours) and FileSystemProvider on a temp directory (synchronous API; inotify stream not compared).",
+      "Trusted: Coq kernel (vm_compute for the bounded wf theorem), extraction + driver, harness. rename_moves_subtree not proved; filesystem events partial.",
+      PURE_TECH, "DESIGN.md §6 C16")
+claim("C11",
+      "Coq proof (no axioms) about StateModel.v (entry table, per-side id and (path,id) indexes, change set, every intercepted write as an explicit "
+      "setter with fuel): id assignment (all of _change_oid), changed, priority, ignored, mark_changed, finished, discard, non-folder path assignment and "
+      "any sequence of these preserve clauses (i)-(iii) from every state satisfying the invariant. Clause (iv) at full strength and termination of the "
+      "folder-path setter are false of the faithful model (witnesses replayed on the real code: open findings F1, F4). Tie: after EVERY operation of "
+      "random event/assignment/split/finished/discard sequences for both id styles the real indexes and entries equal the model's; the four clauses are "
+      "also evaluated on every state of the C06/C07 engine runs (harness/state_oracle.py).",
+      "Trusted: Coq kernel, extraction + driver, harness. Folder path assignment, update, update_entry, split, move-a-side: correspondence + oracle only, no preservation proof.",
+      PURE_TECH, "DESIGN.md §6 C11")
 
 ALL = ["C%02d" % i for i in range(1, 21)]
 
